@@ -208,12 +208,14 @@ Definition sub_stream (md : smode) (c : coll) (later : list event) : list event 
    end) ++ (if cdone c then [EDone] else later).
 
 (** initial [MirroredVecDequeInner] built by [mirror(max_size)]:
-    [v: take_initial().unwrap_or_default(), complete: is_complete(), done: is_done()] where
-    [is_done() = events.is_none() || done] -- i.e. already [true] when subscribed after [done]. *)
+    [v: take_initial().unwrap_or_default(), complete: is_complete(), done: is_done() && is_complete()]
+    (fields evaluated in this order, so [is_complete()] is already [true] for a snapshot subscription)
+    where [is_done() = events.is_none() || done]: a snapshot mirror of a finished collection is done at
+    once, an incremental one only when the synthesized [Done] event arrives after the initial values. *)
 Definition sub_mirror (md : smode) (c : coll) (mx : N) : mirror :=
   match md with
   | Snapshot => {| mv := items c; mcomplete := true; mdone := cdone c; mmax := mx |}
-  | Incremental => {| mv := []; mcomplete := false; mdone := cdone c; mmax := mx |}
+  | Incremental => {| mv := []; mcomplete := false; mdone := cdone c && false; mmax := mx |}
   end.
 
 (** a consumer by hand starts from [take_initial()] (snapshot) or from nothing (incremental) *)
@@ -234,12 +236,6 @@ Fixpoint run_bounded (mx : N) (c : coll) (ops : list op) : Prop :=
   | [] => True
   | o :: r => match apply_op c o with Ok (c1, _) => run_bounded mx c1 r | Panic => True end
   end.
-
-(** Inputs on which the pinned tree's mirror task is wrong: incremental subscription taken after
-    [done] of a non-empty deque (the task starts with [done = true] and leaves its loop after the
-    first initial [PushBack]). *)
-Definition known_class (md : smode) (c : coll) : Prop :=
-  md = Incremental /\ cdone c = true /\ items c <> [].
 
 (** ** Names, for the tie to the generated API / variant lists *)
 Module Names.
